@@ -185,6 +185,7 @@ func runSched16(rep *core.Report, tier string) map[string]any {
 	}
 	totalExec, totalPoints, scen, capped := 0, 0, 0, 0
 	labels := map[string]bool{}
+	boundHist := map[int]int{}
 	for _, uid := range []int{65534, 0} {
 		// solo outputs from fresh processes
 		fresh := core.NewPool(uid)
@@ -210,30 +211,51 @@ func runSched16(rep *core.Report, tier string) map[string]any {
 				}
 			}
 		}
+		// the same pairs once more with ONE Packer shared by the threads (only steps with equal options)
+		type scenT struct {
+			set   []int
+			share bool
+		}
+		var scens []scenT
+		for _, s := range sets {
+			scens = append(scens, scenT{s, false})
+		}
+		sameOpt := func(a, b PackStep) bool { return a.Ignore == b.Ignore && a.Deref == b.Deref && !a.Legacy && !b.Legacy }
+		for _, s := range sets {
+			ok := true
+			for _, o := range s[1:] {
+				if !sameOpt(ops[s[0]], ops[o]) {
+					ok = false
+				}
+			}
+			if ok && len(s) == 2 {
+				scens = append(scens, scenT{s, true})
+			}
+		}
 		pool := core.NewPool(uid)
 		pool.Binary = bin
 		pool.Fresh = true // every scenario starts from a pristine process
 		pool.Timeout = 10 * time.Minute
-		maxExec := 1500
+		maxExec := 400
 		if thorough {
-			maxExec = 200000
+			maxExec = 60000
 		}
-		args := make([]map[string]any, len(sets))
-		pool.Map("schedpack", len(sets), func(i int) any {
+		args := make([]map[string]any, len(scens))
+		pool.Map("schedpack", len(scens), func(i int) any {
 			var steps []PackStep
 			var exp []string
-			for _, o := range sets[i] {
+			for _, o := range scens[i].set {
 				steps = append(steps, ops[o])
 				exp = append(exp, solo[o])
 			}
-			args[i] = map[string]any{"steps": steps, "expected": exp, "bound": -1, "max_exec": maxExec, "uid": uid}
+			args[i] = map[string]any{"steps": steps, "expected": exp, "bound": -1, "max_exec": maxExec, "uid": uid, "share": scens[i].share}
 			return args[i]
 		}, func(i int, r core.Result) {
 			var names []string
-			for _, o := range sets[i] {
+			for _, o := range scens[i].set {
 				names = append(names, ops[o].Name)
 			}
-			desc := fmt.Sprintf("uid=%d concurrent Packs [%s]", uid, strings.Join(names, " || "))
+			desc := fmt.Sprintf("uid=%d shared-packer=%v concurrent Packs [%s]", uid, scens[i].share, strings.Join(names, " || "))
 			if r.Hung || r.Crashed || r.Panic != "" {
 				rep.Violation("slug.Pack/concurrent/hang-or-crash", desc+" "+firstLines(r.Stderr+r.Panic, 4), "schedpack", args[i])
 				return
@@ -244,6 +266,7 @@ func runSched16(rep *core.Report, tier string) map[string]any {
 				core.Fatalf("scheduler: %s (%s)", st.Internal, desc)
 			}
 			scen++
+			boundHist[st.BoundDone]++
 			rep.Evaluations += st.Executions
 			totalExec += st.Executions
 			totalPoints += st.Points
@@ -273,9 +296,9 @@ func runSched16(rep *core.Report, tier string) map[string]any {
 	}
 	sort.Strings(ls)
 	rep.States += scen
-	fmt.Printf("  sched part: scenarios=%d schedules=%d points=%d capped=%d labels=%d\n", scen, totalExec, totalPoints, capped, len(ls))
+	fmt.Printf("  sched part: scenarios=%d schedules=%d points=%d capped=%d labels=%d preemption-bound-completed(-1=all)->scenarios=%v\n", scen, totalExec, totalPoints, capped, len(ls), boundHist)
 	runRacePass(rep, "pack", ops, scenario{})
-	return map[string]any{"part": "schedules", "scenarios": scen, "schedules_explored": totalExec, "scheduling_points": totalPoints, "scenarios_capped": capped, "point_labels": ls, "preemption_bound": "unbounded (all interleavings)"}
+	return map[string]any{"part": "schedules", "scenarios": scen, "schedules_explored": totalExec, "scheduling_points": totalPoints, "scenarios_capped": capped, "point_labels": ls, "preemption_bound_completed(-1=all interleavings)->scenarios": fmt.Sprint(boundHist)}
 }
 
 // runRacePass: auxiliary, free-running -race build of the same bodies.
@@ -295,6 +318,9 @@ func runRacePass(rep *core.Report, kind string, ops []PackStep, sc scenario) {
 		for a := range ops {
 			for b := a; b < len(ops); b++ {
 				args = append(args, map[string]any{"kind": "pack", "steps": []PackStep{ops[a], ops[b], ops[a]}, "iter": 30})
+				if ops[a].Ignore == ops[b].Ignore && ops[a].Deref == ops[b].Deref && !ops[a].Legacy && !ops[b].Legacy {
+					args = append(args, map[string]any{"kind": "pack", "share": true, "steps": []PackStep{ops[a], ops[b], ops[a]}, "iter": 30})
+				}
 			}
 		}
 	} else {
